@@ -237,7 +237,7 @@ def run_model(cases_path, debug, out_path):
     return r.returncode == 0
 
 
-def run_impl(cases_path, prof, out_path, faults_path, limit=None, target="target"):
+def run_impl(cases_path, prof, out_path, faults_path, limit=None, target="target", flip=False):
     """run the harness; a crash or a hang (a broken build can loop or fault on memory it should not touch)
     is reported with the case the marker file names"""
     marker = out_path + ".marker"
@@ -250,7 +250,7 @@ def run_impl(cases_path, prof, out_path, faults_path, limit=None, target="target
     cmd = f"{CACHE}/{target}/{prof}/mm-harness {cases_path} {faults_path} {marker}"
     crash = None
     with open(out_path, "w") as fo:
-        p = subprocess.Popen(cmd.split(), stdout=fo, stderr=subprocess.DEVNULL, env=ENV)
+        p = subprocess.Popen(cmd.split(), stdout=fo, stderr=subprocess.DEVNULL, env=(dict(ENV, MM_FLIP="1") if flip else ENV))
         try:
             rc = p.wait(timeout=limit)
         except subprocess.TimeoutExpired:
@@ -1045,6 +1045,15 @@ def check(prop, tier, replay=None):
         # fault / adversarial variants, whose indexing the counters shift) the tie is broken but no failing input is
         # known.
         obs_cases = sorted(set(ci for _, ci in obs_diffs))
+        swap_note = ""
+        if obs_cases and all(asym_case(cases[ci]) for ci in obs_cases):
+            # every observable difference lies under the operand-determined asymmetric ==.  If the crate agrees with
+            # the model on ALL histories of that kind once the harness swaps the operands of its == (MM_FLIP), it uses one
+            # relation consistently, only the other way round: results under an unlawful == are then different but no
+            # property says which of them is right (C17: "may return wrong answers") -- the tie is broken, no failing input
+            if uniform_operand_swap(cases, tmp):
+                swap_note = " (the crate agrees with the model on every history under the asymmetric == once the operands of == are swapped: a uniform change of operand order)"
+                obs_cases = []
         ci = obs_cases[0] if obs_cases else diff_cases[0]
         small = shrink(cases[ci], one_case_fails(prop, tmp, observable=True) if obs_cases else fails)
         h = hashlib.sha1(small.encode()).hexdigest()[:10]
@@ -1065,7 +1074,7 @@ def check(prop, tier, replay=None):
                     f"# ({len(diff_cases)} of {len(cases)} cases differ; first difference, shrunk)\n"
                     + "\n".join(txt) + "\n" + small + "\n")
         violations.append((f"correspondence broken on {len(diff_cases)} cases"
-                           + ("" if obs_cases else " (only callback counters / fault-indexed variants differ: no observable difference on an honest history)"),
+                           + ("" if obs_cases else (swap_note or " (only callback counters / fault-indexed variants differ: no observable difference on an honest history)")),
                            rp, functional_property(prop) and bool(obs_cases)))
     if not replay and not violations:
         missing = surface_check(prop)
@@ -1144,6 +1153,32 @@ def check(prop, tier, replay=None):
         f"{len(rel_faults)} oracle faults, proofs {'ok' if gate_ok else 'NOT OK'} "
         f"({gate['discharged']}/{gate['obligations']}), {time.time() - t0:.0f}s")
     return 1 if violations else 0
+
+
+def asym_case(line):
+    t = line.split(" ; ")[0].split()
+    return len(t) >= 4 and t[0] == "1" and int(t[1]) % 5 == 3
+
+
+def uniform_operand_swap(cases, tmp):
+    """do model and crate agree (observable part) on every honest history under the asymmetric == when the harness
+    answers == with its operands swapped?"""
+    sel = [c for c in cases if asym_case(c) and honest_case(c)]
+    if not sel:
+        return False
+    p = tmp + ".flip"
+    with open(p, "w") as f:
+        f.write("\n".join(sel) + "\n")
+    for prof, dbg in (("debug", 1), ("release", 0)):
+        run_model(p, dbg, p + ".m")
+        ok, _ = run_impl(p, prof, p + ".i", p + ".f", flip=True)
+        if not ok:
+            return False
+        mo, io = read_obs(p + ".m"), read_obs(p + ".i")
+        for ci in range(len(sel)):
+            if strip_internal(mo.get(ci)) != strip_internal(io.get(ci)):
+                return False
+    return True
 
 
 def honest_case(line):
